@@ -246,6 +246,10 @@ func (r *router) Route(method, routePath string, handlers []Handler) *Route {
 
 		routePath = groupPath + routePath
 		handlers = append(hs, handlers...)
+	} else {
+		// Never wrap in place: the caller may pass the same slice again (Routes does so
+		// once per method), and its handlers would be wrapped once more each time.
+		handlers = append([]Handler(nil), handlers...)
 	}
 
 	validateAndWrapHandlers(handlers, r.handlerWrapper)
